@@ -113,8 +113,12 @@ def run(ctx, prop="C08"):
         ctx.cov["race_detector_reports"] = len(reports)
         for rp in reports[:3]:
             txt = open(rp, errors="replace").read()
-            ctx.violation("Go race detector (monitor, not the TLA+ spec) reported a data race:\n" + txt[:1500],
-                          {"race_report": txt[:20000], "monitor": "go -race"})
+            case = {"race_report": txt[:20000], "monitor": "go -race"}
+            # every report in the file must be about the per-item token cache for it to be the known finding F23
+            blocks = [b for b in txt.split("==================") if "DATA RACE" in b]
+            if blocks and all("transformInput" in b and "pattern.go" in b for b in blocks):
+                case["kf"] = {"finding": "F23", "site": "Pattern.transformInput", "kind": "race-on-Item.transformed"}
+            ctx.violation("Go race detector (monitor, not the TLA+ spec) reported a data race:\n" + txt[:1500], case)
         loading = sum(1 for e in events if e["ev"] == "publish" and not e["final"])
         ctx.cov["publishes_while_loading"] = loading
         ctx.cov["cancelled_scans"] = sum(1 for e in events if e["ev"] == "cancelled")
